@@ -100,8 +100,10 @@ def project(bec, g):
             tag = {"Configuration": "prj", "DeviceSettings": "dev", "RequiresBusAddress": "Yes"}[key]
             hit = [c for c in CONF if g.cm[c].get(key) == v]
             cm[key] = ("Yes", 0) if (key == "RequiresBusAddress" and v == "Yes") else ((tag, hit[0]) if hit else ("?", v))
-    cm["Other"] = ("keep", 0) if bec.bf3file.comments.get("Other") == "keep" else ("?", bec.bf3file.comments.get("Other"))
-    extra = set(bec.bf3file.comments) - {"Configuration", "DeviceSettings", "RequiresBusAddress", "Other"}
+    # the user's comments: one ordinary ("Other: keep") and one with an EMPTY value ("Blank: "), which a write/read-back must keep too
+    user = (bec.bf3file.comments.get("Other"), bec.bf3file.comments.get("Blank"))
+    cm["Other"] = ("keep", 0) if user == ("keep", "") else ("?", user)
+    extra = set(bec.bf3file.comments) - {"Configuration", "DeviceSettings", "RequiresBusAddress", "Other", "Blank"}
     if extra:
         cm["Other"] = ("extra-comments", sorted(extra))
     auth = []
@@ -194,7 +196,7 @@ def _walk(args):
     import random as _rnd
     rs = _rnd.Random("%s/%s" % (first_label, first_dst))
     graph, g = _G["graph"], _G["gamma"]
-    bec0 = Bec2File(Bf3File({"Other": "keep"}), [], KEY)
+    bec0 = Bec2File(Bf3File({"Other": "keep", "Blank": ""}), [], KEY)
     steps, bad = 0, []
     stack = [(graph.init, bec0, [], first_label, first_dst)]
     while stack:
